@@ -60,8 +60,38 @@ pub fn compile_many(files: &[(String, Vec<u8>, Option<String>)]) -> Compiled {
     Compiled { rules: if ok { Some(c.build()) } else { None }, patches, warning_codes: codes, errors }
 }
 
-/// Is the text a patch replaces what its diagnostic talks about?
-pub fn span_text_ok(src: &[u8], p: &P) -> bool {
+/// Is the text a patch replaces what its diagnostic talks about, and (for the
+/// rewrite of `<bool> == 1` to `<bool>` / `<bool> == 0` to `not <bool>`) is the
+/// operand it keeps the operand that was written?
+pub fn span_text_ok(src: &[u8], p: &P) -> bool { span_covers_diagnosed_text(src, p) && operand_kept(src, p) }
+
+/// the replacement of a bool_int_comparison fix without its `not ` is a piece of the replaced text
+pub fn operand_kept(src: &[u8], p: &P) -> bool {
+    if p.code != "bool_int_comparison" || p.start > p.end || p.end > src.len() { return true; }
+    // white space outside string literals does not matter
+    fn norm(t: &[u8]) -> Vec<u8> {
+        let (mut out, mut in_str, mut esc) = (vec![], false, false);
+        for c in t {
+            if in_str { out.push(*c); if esc { esc = false; } else if *c == b'\\' { esc = true; } else if *c == b'"' { in_str = false; } }
+            else { if *c == b'"' { in_str = true; } out.push(if matches!(*c, b'\t' | b'\n' | b'\r') { b' ' } else { *c }); }
+        }
+        out
+    }
+    let r = norm(p.repl.strip_prefix("not ").unwrap_or(&p.repl).as_bytes());
+    !r.is_empty() && norm(&src[p.start..p.end]).windows(r.len()).any(|w| w == &r[..])
+}
+
+/// what is wrong with the text of a patch (for fingerprints)
+pub fn span_text_class(src: &[u8], p: &P) -> String {
+    if !span_covers_diagnosed_text(src, p) { return format!("patch-span-does-not-cover-the-diagnosed-text:{}", p.code); }
+    let t = &src[p.start..p.end];
+    let tabs_to_spaces: Vec<u8> = t.iter().map(|c| if *c == b'\t' { b' ' } else { *c }).collect();
+    let r = p.repl.strip_prefix("not ").unwrap_or(&p.repl).as_bytes();
+    let tab = t.contains(&b'\t') && !r.is_empty() && tabs_to_spaces.windows(r.len()).any(|w| w == r);
+    format!("fix-alters-the-text-of-the-operand-it-keeps:{}:{}", p.code, if tab { "tab-replaced-by-space" } else { "other" })
+}
+
+pub fn span_covers_diagnosed_text(src: &[u8], p: &P) -> bool {
     if p.start > p.end || p.end > src.len() { return false; }
     let t = &src[p.start..p.end];
     match p.code.as_str() {
@@ -119,6 +149,7 @@ pub struct Gen { pub src: String, pub needles: Vec<Vec<u8>>, pub shape: Vec<&'st
 /// boolean-typed operands that the grammar accepts on either side of `==`
 /// (primary expressions: fields and function calls; `$a == 1` and `(b) == 1`
 /// are syntax errors)
+const TAB_BOOLS: [&str; 3] = ["pe.exports(\"a\tb\")", "pe.imports(\"kernel32.dll\",\t\"x\ty\")", "math.in_range(filesize,\t0, 8)"];
 const BOOLS: [&str; 8] = ["math.in_range(filesize, 0, 8)", "pe.is_pe", "pe.is_dll()", "math.in_range(filesize, 4, 100)", "pe.is_32bit()",
     "math.in_range(#a, 1, 3)", "pe.is_signed", "math.in_range(math.abs(filesize - 7), 0, 2)"];
 
@@ -129,7 +160,7 @@ fn clean() -> bool { CLEAN.load(std::sync::atomic::Ordering::Relaxed) }
 
 fn bool_cmp(rng: &mut Rng, depth: u32, shape: &mut Vec<&'static str>) -> String {
     let depth = if clean() { 0 } else { depth };
-    let mut b = if depth > 0 && rng.chance(1, 4) { shape.push("nested"); bool_cmp(rng, depth - 1, shape) } else { rng.pick(&BOOLS).to_string() };
+    let mut b = if depth > 0 && rng.chance(1, 4) { shape.push("nested"); bool_cmp(rng, depth - 1, shape) } else if !clean() && rng.chance(1, 12) { shape.push("tab-in-operand"); rng.pick(&TAB_BOOLS).to_string() } else { rng.pick(&BOOLS).to_string() };
     if !b.contains("==") && !clean() && rng.chance(1, 5) {
         shape.push("parenthesised-operand");
         b = match rng.below(5) { 0 => format!("({})", b), 1 => format!("( {} )", b), 2 => format!("(({}))", b), 3 => format!("(/* c */ {})", b), _ => format!("(\n      {}\n    )", b) };
@@ -239,6 +270,9 @@ fn corpus() -> Vec<Gen> {
         g("import \"math\"\nrule t {\n  condition:\n    math.in_range(math.abs(filesize - 7), 0, 2) == 0\n}\n", vec!["bool-int", "function-call"]),
         g("import \"hash\"\nrule t {\n  condition:\n    \"D41D8CD98F00B204E9800998ECF842\\\\E\" == hash.md5(0, filesize)\n}\n", vec!["case-constraint", "const-on-left"]),
         g("import \"pe\"\nimport \"pe\"\nimport \"hash\"\nrule t {\n  strings:\n    $a = { 61 22 5C }\n    $b = { 11 [1-2] [3-4] 22 }\n  condition:\n    $a and $b and pe.is_dll() == 0 == 1 and 0 == pe.is_pe and hash.md5(0, filesize) == \"D41D8CD98F00B204E9800998ECF842\\\"E\"\n}\n", vec!["bool-int", "nested", "function-call", "case-constraint", "duplicate-import", "hex-as-text", "consecutive-jumps"]),
+        // a raw tab inside a string literal of the operand that the fix keeps; a tab between tokens
+        g("import \"pe\"\nrule t {\n  condition:\n    pe.exports(\"a\tb\") == 1\n}\n", vec!["bool-int", "function-call", "tab-in-operand"]),
+        g("import \"math\"\nrule t {\n  condition:\n    math.in_range(filesize,\t0, 8) == 0\n}\n", vec!["bool-int", "function-call", "tab-in-operand"]),
         g("rule t { condition: true }\n", vec!["no-diagnostic"]),
     ]
 }
@@ -410,7 +444,7 @@ fn include_cases(rng: &mut Rng, index: usize, root: &Path, yr: Option<&str>, sta
         Err(msg) => {
             // the compiler itself panicked: one failing case that carries the sources
             stats.inc("include_cases"); stats.inc("impl_fails_include:compiler-panicked");
-            let case = format!("mkCase {} [] [] None None false false false true false", coq_bytes(main_text.as_bytes()));
+            let case = format!("mkCase {} [] [] None None false false false true false 1%nat", coq_bytes(main_text.as_bytes()));
             let replay = format!("{{\"index\":{},\"kind\":\"include\",\"file\":\"main.yar\",\"main\":{},\"common\":{},\"patches\":[],\"class\":\"include:compiler-panicked\",\"panic\":{}}}",
                 index, json_str(&main_text), json_str(&common.src), json_str(&msg));
             return vec![(case, replay)];
@@ -432,7 +466,7 @@ fn include_cases(rng: &mut Rng, index: usize, root: &Path, yr: Option<&str>, sta
     for f in &files { for p in &f.patches { if !span_text_ok(&f.text, p) {
         text_ok = false;
         let other = files.iter().find(|g| g.path != f.path).unwrap();
-        if class == "none" { class = if span_text_ok(&other.text, p) { format!("include:patch-origin-names-the-wrong-file:{}", p.code) } else { format!("include:patch-span-does-not-cover-the-diagnosed-text:{}", p.code) }; }
+        if class == "none" { class = if span_text_ok(&other.text, p) { format!("include:patch-origin-names-the-wrong-file:{}", p.code) } else { format!("include:{}", span_text_class(&f.text, p)) }; }
     } } }
     let mut all_spliced = true;
     for f in files.iter_mut() {
@@ -483,7 +517,7 @@ fn include_cases(rng: &mut Rng, index: usize, root: &Path, yr: Option<&str>, sta
     for f in &files {
         let tb: Vec<usize> = token_boundaries(&f.text).into_iter().collect();
         let ok_text = text_ok && f.patches.iter().all(|p| span_text_ok(&f.text, p));
-        let case = format!("mkCase {} {} {} {} {} {} {} {} {} {}",
+        let case = format!("mkCase {} {} {} {} {} {} {} {} {} {} 1%nat",
             coq_bytes(&f.text), coq_list(&f.patches, coq_patch), coq_list(&tb, |x| format!("{}%nat", x)),
             coq_option(&f.fixed, |t| coq_bytes(t)),
             match (&yr_ok, &f.yr_after) { (Some(ok), Some(t)) => format!("(Some ({}, {}))", coq_bool(*ok), coq_bytes(t)), _ => "None".into() },
@@ -523,7 +557,7 @@ fn multi_source_cases(rng: &mut Rng, index: usize, root: &Path, yr: Option<&str>
         Ok(c) => c,
         Err(msg) => {
             stats.inc("multi_source_cases"); stats.inc("impl_fails_multi-source:compiler-panicked");
-            let case = format!("mkCase {} [] [] None None false false false true false", coq_bytes(gens[0].src.as_bytes()));
+            let case = format!("mkCase {} [] [] None None false false false true false 1%nat", coq_bytes(gens[0].src.as_bytes()));
             return vec![(case, format!("{{\"index\":{},\"kind\":\"multi-source\",\"sources\":{},\"class\":\"multi-source:compiler-panicked\",\"panic\":{}}}", index, sources_json, json_str(&msg)))];
         }
     };
@@ -535,7 +569,7 @@ fn multi_source_cases(rng: &mut Rng, index: usize, root: &Path, yr: Option<&str>
         }
     }
     let mut text_ok = true;
-    for f in &files { for p in &f.patches { if !span_text_ok(&f.text, p) { text_ok = false; if class == "none" { class = format!("multi-source:patch-span-does-not-cover-the-diagnosed-text:{}", p.code); } } } }
+    for f in &files { for p in &f.patches { if !span_text_ok(&f.text, p) { text_ok = false; if class == "none" { class = format!("multi-source:{}", span_text_class(&f.text, p)); } } } }
     let mut all_spliced = true;
     for f in files.iter_mut() {
         let inb = f.patches.iter().all(|p| p.start <= p.end && p.end <= f.text.len());
@@ -565,13 +599,25 @@ fn multi_source_cases(rng: &mut Rng, index: usize, root: &Path, yr: Option<&str>
         }
     }
     // the real tool: `yr fix warnings [ns0:]s0.yar [ns1:]s1.yar ...` on a copy
+    // (with namespaces, sometimes the first file is named a second time, written differently, under
+    // another namespace: the same rules once more, the same fixes once more for the same file)
     let mut yr_ok: Option<bool> = None;
+    let mut spellings = 1usize;
+    let mut yr_cmdline = String::new();
     if let Some(y) = yr {
         let d3 = root.join("multi_yr"); let _ = std::fs::remove_dir_all(&d3); std::fs::create_dir_all(&d3).unwrap();
         let mut cmd = std::process::Command::new(y); cmd.arg("fix").arg("warnings");
+        yr_cmdline.push_str("yr fix warnings");
         for (k, f) in files.iter().enumerate() {
-            let p = d3.join(Path::new(&f.path).file_name().unwrap()); std::fs::write(&p, &f.text).unwrap();
-            if with_ns { cmd.arg(format!("ns{}:{}", k, p.to_str().unwrap())); } else { cmd.arg(&p); }
+            let name = Path::new(&f.path).file_name().unwrap().to_str().unwrap().to_string();
+            let p = d3.join(&name); std::fs::write(&p, &f.text).unwrap();
+            if with_ns { cmd.arg(format!("ns{}:{}", k, p.to_str().unwrap())); yr_cmdline.push_str(&format!(" ns{}:{}", k, name)); } else { cmd.arg(&p); yr_cmdline.push_str(&format!(" {}", name)); }
+        }
+        if with_ns && c.rules.is_some() && rng.chance(1, 3) {
+            spellings = 2;
+            let name = Path::new(&files[0].path).file_name().unwrap().to_str().unwrap().to_string();
+            cmd.arg(format!("ns{}:{}/./{}", files.len(), d3.to_str().unwrap(), name)); yr_cmdline.push_str(&format!(" ns{}:./{}", files.len(), name));
+            stats.inc("multi_source_file_named_twice");
         }
         if let Ok(st) = cmd.env("RUST_BACKTRACE", "0").stdout(std::process::Stdio::null()).stderr(std::process::Stdio::null()).status() {
             yr_ok = Some(st.success());
@@ -582,16 +628,22 @@ fn multi_source_cases(rng: &mut Rng, index: usize, root: &Path, yr: Option<&str>
     stats.inc("multi_source_cases"); if with_ns { stats.inc("multi_source_with_namespaces"); }
     if class != "none" { stats.inc(&format!("impl_fails_{}", class.splitn(3, ':').take(2).collect::<Vec<_>>().join(":"))); }
     let mut out = vec![];
-    for f in &files {
+    for (fi, f) in files.iter().enumerate() {
         let tb: Vec<usize> = token_boundaries(&f.text).into_iter().collect();
         let ok_text = text_ok && f.patches.iter().all(|p| span_text_ok(&f.text, p));
-        let case = format!("mkCase {} {} {} {} {} {} {} {} {} {}",
+        let case = format!("mkCase {} {} {} {} {} {} {} {} {} {} {}%nat",
             coq_bytes(&f.text), coq_list(&f.patches, coq_patch), coq_list(&tb, |x| format!("{}%nat", x)),
             coq_option(&f.fixed, |t| coq_bytes(t)),
             match (&yr_ok, &f.yr_after) { (Some(ok), Some(t)) => format!("(Some ({}, {}))", coq_bool(*ok), coq_bytes(t)), _ => "None".into() },
-            coq_bool(recompiles), coq_bool(fixed_gone), coq_bool(scan_equal), coq_bool(nothing_to_compare), coq_bool(ok_text && class.find("origin").is_none()));
-        let replay = format!("{{\"index\":{},\"kind\":\"multi-source\",\"file\":{},\"namespaces\":{},\"sources\":{},\"patches\":{},\"class\":{},\"fixed\":{},\"recompiles\":{},\"errors_after_fix\":{},\"remaining_fixable\":{},\"yr\":{}}}",
-            index, json_str(Path::new(&f.path).file_name().unwrap().to_str().unwrap()), with_ns, sources_json,
+            coq_bool(recompiles), coq_bool(fixed_gone), coq_bool(scan_equal), coq_bool(nothing_to_compare), coq_bool(ok_text && class.find("origin").is_none()),
+            if fi == 0 { spellings } else { 1 });
+        // the command's result on this file, against the fixes applied together
+        let class = if class == "none" && yr_ok.is_some() && f.fixed.is_some() && (yr_ok != Some(true) || f.yr_after != f.fixed) {
+            if fi == 0 && spellings > 1 { "multi-source:file-named-twice-with-different-paths:yr-patches-it-twice".to_string() } else { "multi-source:yr-result-differs-from-the-fixes-applied-together".to_string() }
+        } else { class.clone() };
+        if class != "none" && fi == 0 && spellings > 1 { stats.inc("impl_fails_multi-source:file-named-twice"); }
+        let replay = format!("{{\"index\":{},\"kind\":\"multi-source\",\"yr_command\":{},\"file\":{},\"namespaces\":{},\"sources\":{},\"patches\":{},\"class\":{},\"fixed\":{},\"recompiles\":{},\"errors_after_fix\":{},\"remaining_fixable\":{},\"yr\":{}}}",
+            index, json_str(&yr_cmdline), json_str(Path::new(&f.path).file_name().unwrap().to_str().unwrap()), with_ns, sources_json,
             format!("[{}]", c.patches.iter().map(|p| format!("{{\"code\":{},\"origin\":{},\"start\":{},\"end\":{},\"replacement\":{}}}", json_str(&p.code), json_str(Path::new(&p.origin).file_name().and_then(|x| x.to_str()).unwrap_or(&p.origin)), p.start, p.end, json_str(&p.repl))).collect::<Vec<_>>().join(",")),
             json_str(&class), match &f.fixed { Some(t) => json_str(&String::from_utf8_lossy(t)), None => "null".into() }, recompiles, json_str(&errors_after.join(",")), json_str(&remaining.join(",")),
             match (&yr_ok, &f.yr_after) { (Some(ok), Some(t)) => format!("{{\"exit_ok\":{},\"file_after\":{}}}", ok, json_str(&String::from_utf8_lossy(t))), _ => "null".into() });
@@ -657,12 +709,14 @@ pub fn run(args: &[String]) -> i32 {
         } }
         let tb: Vec<usize> = token_boundaries(src).into_iter().collect();
         let span_ok = c.patches.iter().all(|p| p.origin == "case.yar" && (p.end > src.len() || p.start > p.end || span_text_ok(src, p)));
-        let case = format!("mkCase {} {} {} {} {} {} {} {} {} {}",
+        let case = format!("mkCase {} {} {} {} {} {} {} {} {} {} 1%nat",
             coq_bytes(src), coq_list(&c.patches, coq_patch), coq_list(&tb, |x| format!("{}%nat", x)),
             coq_option(&v.fixed, |t| coq_bytes(t)),
             coq_option(&yr_res, |(ok, t)| format!("({}, {})", coq_bool(*ok), coq_bytes(t))),
             coq_bool(v.recompiles), coq_bool(v.fixed_gone), coq_bool(v.scan_equal), coq_bool(v.nothing_to_compare), coq_bool(span_ok));
-        let class = if class == "none" && !span_ok { "patch-span-does-not-cover-the-diagnosed-text".to_string() } else { class };
+        let class = if class == "none" && !span_ok {
+            c.patches.iter().find(|p| !(p.end > src.len() || p.start > p.end || span_text_ok(src, p))).map(|p| if p.origin != "case.yar" { "patch-names-another-origin".to_string() } else { span_text_class(src, p) }).unwrap_or_else(|| "patch-names-another-origin".to_string())
+        } else { class };
         let replay = format!("{{\"index\":{},\"source\":{},\"shape\":{},\"patches\":{},\"class\":{},\"original_compiles\":{},\"fixed\":{},\"recompiles\":{},\"remaining_fixable\":{},\"scan_difference\":{},\"yr\":{}}}",
             index, json_str(&g.src), json_str(&g.shape.join(",")),
             format!("[{}]", c.patches.iter().map(|p| format!("{{\"code\":{},\"start\":{},\"end\":{},\"replaced\":{},\"replacement\":{}}}", json_str(&p.code), p.start, p.end, json_str(&String::from_utf8_lossy(&src[p.start.min(src.len())..p.end.min(src.len())])), json_str(&p.repl))).collect::<Vec<_>>().join(",")),
